@@ -250,7 +250,8 @@ where
 
 pub struct Env {
     pub kind: Kind,
-    pub arena: Arena,
+    /// boxed: the software MMU and the allocator objects keep raw pointers to it
+    pub arena: Box<Arena>,
     pub model: Model,
     pub offset: u64,
     /// history so far (for replay / evidence)
@@ -379,9 +380,9 @@ pub fn new_env(kind: Kind, r: &mut Rng, nframes: usize) -> Env {
     }
     let seed = r.next();
     #[cfg(not(miri))]
-    let mut arena = if kind == Kind::Recursive { Arena::new_memfd(phys, n_data, seed) } else { Arena::new(phys, kind == Kind::Offset, n_data, seed) };
+    let mut arena = Box::new(if kind == Kind::Recursive { Arena::new_memfd(phys, n_data, seed) } else { Arena::new(phys, kind == Kind::Offset, n_data, seed) });
     #[cfg(miri)]
-    let mut arena = Arena::new(phys, kind == Kind::Offset, n_data, seed);
+    let mut arena = Box::new(Arena::new(phys, kind == Kind::Offset, n_data, seed));
     if kind == Kind::Offset {
         // choose the physical base: virtual = offset + phys must stay a usable lower-half address
         let block = arena.st().contiguous_block.unwrap().0 as usize as u64;
